@@ -197,10 +197,11 @@ def c13(tier):
 
 
 def c15(tier):
-    mc = [("WireMC.tla", "WireMC_%s.cfg" % tier)]
+    mc = [("WireMC.tla", "WireMC_%s.cfg" % tier), ("AsyncReadMC.tla", "AsyncRead_%s.cfg" % tier)]
     return codec_check(
         "C15", tier, ["dec", "ts"], mc,
-        ["every API (one-shot slice, BufferReader, read_from_buffer, async with scripted chunking and Pending patterns) is judged against the same reference outcome and byte count"],
+        ["every API (one-shot slice, BufferReader, read_from_buffer, async with scripted chunking and Pending patterns) is judged against the same reference outcome and byte count",
+         "AsyncRead.tla: the poll-level model of GetVarint/GetBuffer/Frame::read_async is checked against Wire!FrameAt for every input over a class alphabet, every chunking up to MaxChunk and every end condition (agreement, no over-read, no spin, termination)"],
         _case_basic, _corrupt_used)
 
 
